@@ -17,22 +17,23 @@ import (
 const simPver = uint32(70013)
 
 type simNode struct {
-	idx       int
-	role      string // honest | lagging | forked | staller | disconnector | forbidden | contra
-	ip        net.IP
-	best      *MHeader
-	cap       int    // max headers per reply
-	announce  string // inv | headers
-	invTrail  int    // how many ancestors an inv announcement lists before the new block
-	invTx     bool   // inv announcements end with a transaction entry
-	skew      time.Duration
-	silentAt  int // goes silent after having received this many messages (-1 never)
-	closeAt   int // closes after this many messages (-1 never)
-	conns     []*nodeConn
-	tree      *Model
-	forbidAt  int
-	forbidden *MHeader
-	nonce     uint64
+	idx                int
+	role               string // honest | lagging | forked | staller | disconnector | forbidden | contra
+	ip                 net.IP
+	best               *MHeader
+	cap                int    // max headers per reply
+	announce           string // inv | headers
+	invTrail           int    // how many ancestors an inv announcement lists before the new block
+	invTx              bool   // inv announcements end with a transaction entry
+	ignoresSendHeaders bool   // keeps announcing by inv after the service's sendheaders (a pre-BIP-130 node)
+	skew               time.Duration
+	silentAt           int // goes silent after having received this many messages (-1 never)
+	closeAt            int // closes after this many messages (-1 never)
+	conns              []*nodeConn
+	tree               *Model
+	forbidAt           int
+	forbidden          *MHeader
+	nonce              uint64
 }
 
 type recvMsg struct {
